@@ -4,7 +4,7 @@ from __future__ import annotations
 import copy
 from typing import Any, Dict, List
 
-from . import from_tlc, gen_asgi, gen_h1, gen_h2, gen_limits, gen_proto, gen_ws
+from . import from_tlc, gen_asgi, gen_h1, gen_h2, gen_limits, gen_proto, gen_worker, gen_ws
 
 COMMON_ASSUMPTIONS = [
     "h11/h2/wsproto/priority libraries behave as documented (their server roles are exercised, not re-verified)",
@@ -69,7 +69,25 @@ PROPS["C16"] = {"monitor": "C16", "generators": [gen_c16], "workers": ["pair"]}
 PROPS["C17"] = {"monitor": "C17", "adapter": "c17",
                 "design": [{"module": "Wsgi", "cfg": "MC_Wsgi.cfg"}],
                 "technique": "TLA+ oracle (Wsgi.tla) model-checked by TLC + TLC validation of real executions of every enumerated case"}
-PROPS["C18"] = {"monitor": "C18", "generators": [gen_limits.gen_c18, gen_h1.gen_c06]}
+WORKER_DESIGN = [
+    {"module": "MC_Worker", "cfg": "MC_Worker_quick.cfg"},
+    {"module": "MC_Worker", "cfg": "MC_Worker_thorough.cfg", "tier": "thorough", "timeout": 3600},
+]
+
+
+def _wdev(dev: str, expect: str) -> Dict[str, Any]:
+    return {"module": "MC_Worker", "cfg": "MC_Worker_quick.cfg", "dev": dev, "expect": expect}
+
+
+PROPS["C14"] = {"monitor": "C14", "generators": [gen_worker.gen_c14], "runner": "worker", "design": WORKER_DESIGN,
+                "deviations": [_wdev("DevFailedSwallowed", "NothingServedAfterFailure")]}
+PROPS["C15"] = {"monitor": "C15", "generators": [gen_worker.gen_c15], "runner": "worker", "design": WORKER_DESIGN,
+                "deviations": [_wdev("DevWaitClosed", "BoundedShutdown")]}
+PROPS["C18"] = {"parts": [
+    {"monitor": "C18", "generators": [gen_limits.gen_c18, gen_h1.gen_c06], "selftest": "C18"},
+    {"monitor": "C18W", "generators": [gen_worker.gen_c18w], "runner": "worker", "design": WORKER_DESIGN,
+     "deviations": [_wdev("DevMarkGe", "RecycleWindow")], "selftest": "C18W"},
+]}
 PROPS["C19"] = {"monitor": "C19", "adapter": "c19", "procs": 4, "batch": 400,
                 "design": [{"module": "Config", "cfg": "MC_Config.cfg"}],
                 "technique": "TLA+ oracle (Config.tla, tables transcribed from the documentation) model-checked by TLC + TLC validation of real executions of every enumerated case"}
